@@ -522,6 +522,85 @@ def toggle_u_switch(pid):
     return c
 
 
+DEV_STATUS = z3.Function('dev_status', K, K, R)      # ghost: connection status of device (model name, idx) at call time
+
+
+def toggle_v_numeric(pid):
+    """Toggle.v_numeric: the first initialisation stores, for every toggle k, the connection status of exactly the addressed
+    device (model[k], dev[k]) in _u[k]; every later initialisation writes exactly that stored value back to exactly that
+    device, once per toggle, and leaves the store untouched."""
+    N = fresh('n', I)
+
+    def _ok(st, base, kw):
+        i = to_z3(st.env['i'])
+        return bool(isinstance(base, Mark) and base.kind == 'devmodel' and kw.get('src') == 'u' and kw.get('attr') == 'v'
+                    and _is_elem(st, base.data[0], 'self.model.v', i) and _is_elem(st, kw.get('idx'), 'self.dev.v', i))
+
+    def get(ex, st, args, kw, node):
+        ok = _ok(st, args[0], kw)
+        ex.oblige(st, 'pre@call:get(u,v,idx=dev[k])-on-model[k]', z3.BoolVal(ok), {})
+        if not ok:
+            return NR(fresh('u0', R))
+        i = to_z3(st.env['i'])
+        return NR(DEV_STATUS(st.content(st.load('self.model.v')).arr[i], st.content(st.load('self.dev.v')).arr[i]))
+
+    def set_(ex, st, args, kw, node):
+        ok = _ok(st, args[0], kw)
+        i = to_z3(st.env['i'])
+        val = as_real(kw.get('value')).val
+        ex.oblige(st, 'pre@call:set(u,v,idx=dev[k],value=stored-status[k])-on-model[k]',
+                  z3.And(z3.BoolVal(ok), val == View(st, ex).arr('self._u.v').vals[i]), {})
+        st.ghost['sets'] = st.ghost['sets'] + 1
+        return None
+
+    def stored(v):
+        k = fresh('k', I)
+        mdl, dev = v.st.content(v.st.load('self.model.v')).arr, v.st.content(v.st.load('self.dev.v')).arr
+        return z3.And(z3.ForAll([k], z3.Implies(z3.And(k >= 0, k < v.local('$i0')),
+                                                v.arr('self._u.v').vals[k] == DEV_STATUS(mdl[k], dev[k]))),
+                      z3.Implies(v.local('$i0') > 0, _b(v.z('self._init'))))
+
+    def reset(v):
+        v.st.ghost['sets'] = 0
+        v.st.ghost['in_iter'] = True
+        return True
+
+    def once(v):
+        if not v.st.ghost.get('in_iter'):
+            return True
+        sets = v.st.ghost['sets']
+        return (sets if z3.is_expr(sets) else z3.IntVal(sets)) == 1
+
+    def post(old, new, res):
+        k = fresh('k', I)
+        mdl, dev = old.st.content(old.st.load('self.model.v')).arr, old.st.content(old.st.load('self.dev.v')).arr
+        u0, u1 = old.arr('self._u.v'), new.arr('self._u.v')
+        first = z3.Not(_b(old.z('self._init')))
+        return z3.And(
+            z3.Implies(first, z3.And(z3.ForAll([k], z3.Implies(z3.And(k >= 0, k < N), u1.vals[k] == DEV_STATUS(mdl[k], dev[k]))),
+                                     z3.Implies(N > 0, _b(new.z('self._init'))))),
+            z3.Implies(z3.Not(first), z3.And(_b(new.z('self._init')),
+                                             z3.ForAll([k], z3.Implies(z3.And(k >= 0, k < N), u1.vals[k] == u0.vals[k])))))
+    c = Contract(FT, 'Toggle.v_numeric', pid=pid, params={'self': TObj()},
+                 schema={'self.n': TInt(), 'self._init': TBool(), 'self._u.v': TArr(n=N), 'self.model.v': TSeq(elem=K), 'self.system.dae.t': TReal(),
+                         'self.dev.v': TSeq(elem=K)},
+                 requires=[('n', lambda v: z3.And(v.z('self.n') == N, N >= 0))],
+                 ghost_init={'sets': 0},
+                 calls={'__objdict__': _dev_model, '<value>.get': get, '<value>.set': set_},
+                 loops={0: Loop(inv=[('statuses-of-the-addressed-devices-stored-so-far', stored)],
+                                frame=['$i', '$instance', 'loc:self._u.v', 'self._init']),
+                        1: Loop(inv=[('stored-status-written-back-to-its-device-exactly-once', once)], assume=[('reset', reset)],
+                                frame=['$i', '$instance', 'ghost:sets', 'ghost:in_iter'])},
+                 ensures=[('first-init-stores-status[model[k],dev[k]];later-init-keeps-the-store', post)],
+                 modifies=['self._u.v', 'self._init'])
+    c.check_bounds = False
+
+    def pre_state(st):
+        st.ghost.pop('in_iter', None)
+    c.pre_state = pre_state
+    return c
+
+
 def _b(x):
     return z3.BoolVal(x) if isinstance(x, bool) else x
 
@@ -732,6 +811,36 @@ def replay_event_runs(obligation=None, model=None, meta=None):
 replay_event_runs.real_system = True
 
 
+def replay_toggle_store(obligation=None, model=None, meta=None):
+    """native: kundur_full plus two more toggles (another Line that is out of service, a PQ); the first Toggle.v_numeric (TDS.init)
+    must store the status of each addressed device, a second call after the statuses were changed must write the stored ones back"""
+    import andes
+    import numpy as np
+    ss = andes.load(andes.get_case('kundur/kundur_full.xlsx'), default_config=True, no_output=True, setup=False)
+    ss.add('Toggle', dict(model='Line', dev='Line_3', t=3.0))
+    ss.add('Toggle', dict(model='PQ', dev='PQ_1', t=4.0))
+    ss.setup()
+    ss.Line.set('u', 'Line_3', 'v', 0.0)
+    ss.PFlow.run()
+    ss.TDS.init()
+    tg = ss.Toggle
+    want = [float(ss.__dict__[m].get('u', d, 'v')) for m, d in zip(tg.model.v, tg.dev.v)]
+    got = [float(x) for x in tg._u.v]
+    if got != want or 0.0 not in want or 1.0 not in want:
+        return {'confirmed': True, 'inputs': {'toggles': list(zip(tg.model.v, tg.dev.v))}, 'observed': {'stored': got, 'device status': want}}
+    for m, d, w in zip(tg.model.v, tg.dev.v, want):
+        ss.__dict__[m].set('u', d, 'v', 1.0 - w)
+    tg.v_numeric()
+    back = [float(ss.__dict__[m].get('u', d, 'v')) for m, d in zip(tg.model.v, tg.dev.v)]
+    if back != want or [float(x) for x in tg._u.v] != want:
+        return {'confirmed': True, 'inputs': {'toggles': list(zip(tg.model.v, tg.dev.v)), 'step': 'second initialisation'},
+                'observed': {'restored': back, 'stored before': want, 'store after': [float(x) for x in tg._u.v]}}
+    return {'confirmed': False, 'tried': 2 * len(want)}
+
+
+replay_toggle_store.real_system = True
+
+
 def add_obligations(pack, tier, pid='C06'):
     pack.assume('System.store_switch_times is verified in two mechanical slices cut at `for i, j in zip(out, names)`: the head (collection, sort, '
                 'selection) guarantees what the tail (merge loop) requires of `out`, `names`: ascending, paired; not decided for the head: that no '
@@ -740,7 +849,7 @@ def add_obligations(pack, tier, pid='C06'):
                 'which the mask holds; np.append(a, b) is a followed by b (assumed numpy contracts)')
     items = [(store_switch_times_head(pid), None, replay_store_switch_times), (store_switch_times_tail(pid, True), None, replay_store_switch_times), (store_switch_times_tail(pid, False), WIT_F28, replay_store_switch_times),
              (fn_tds.tds_init(pid),), (is_time(pid), None, replay_is_time), (model_switch_action(pid), None, replay_event_runs), (system_switch_action(pid), None, replay_event_runs),
-             (toggle_u_switch(pid), None, replay_event_runs), (fault_apply(pid), None, replay_fault_flags), (fault_clear(pid), None, replay_fault_flags), (alter_field(pid), None, replay_alter_field)]
+             (toggle_u_switch(pid), None, replay_event_runs), (toggle_v_numeric(pid), None, replay_toggle_store), (fault_apply(pid), None, replay_fault_flags), (fault_clear(pid), None, replay_fault_flags), (alter_field(pid), None, replay_alter_field)]
     run_contracts(pack, items)
 
 replay_alter_field.real_system = True       # drives the real program on stock inputs: a crash inside repository code is a confirmed failure
